@@ -387,11 +387,25 @@ fn layout_entries(k: &KeySpec, b: Node, wt: Node, ws: Node) -> Vec<(String, Node
     vec![(base.clone(), b), (format!("{base}.wat"), wt), (format!("{base}.wasm"), ws)]
 }
 
+/// scratch directories live on tmpfs when there is one (`/dev/shm`): the enumeration is bound
+/// by file-system operations
+pub fn scratch_base() -> PathBuf {
+    let shm = Path::new("/dev/shm");
+    if shm.is_dir() {
+        let probe = shm.join(format!(".wacv-probe-{}", std::process::id()));
+        if fs::write(&probe, b"x").is_ok() {
+            fs::remove_file(&probe).ok();
+            return shm.to_path_buf();
+        }
+    }
+    std::env::temp_dir()
+}
+
 pub fn run(args: Args) {
     quiet_panics();
     let shard = args.num("shard", 0);
     let nshards = args.num("nshards", 1).max(1);
-    let scratch = PathBuf::from(format!("/tmp/c18-{}-{}", std::process::id(), shard));
+    let scratch = scratch_base().join(format!("c18-{}-{}", std::process::id(), shard));
     let _ = fs::remove_dir_all(&scratch);
     let mut ctx = Ctx::new(scratch.clone());
     let mut out = Out::create(&args.out, &format!("c18-w{}i{}-s{}-", ctx.feat_wat as u8, ctx.feat_wit as u8, shard));
@@ -425,8 +439,11 @@ pub fn run(args: Args) {
     };
 
     // 1. single key, exhaustive layouts
+    // quick: three version shapes (none, release, pre-release+build); thorough: all six
+    let version_shapes: Vec<Option<&'static str>> =
+        if args.thorough() { versions() } else { vec![None, Some("1.2.3"), Some("0.3.0-alpha.1+b7")] };
     for name in names() {
-        for ver in versions() {
+        for ver in version_shapes.clone() {
             let key = KeySpec { name: name.into(), version: ver.map(|s| s.to_string()) };
             for (olabel, ovs, oentries) in override_kinds(name) {
                 // the full layout product without an override; a representative subset with one
@@ -579,7 +596,7 @@ fn run_variant(args: &Args, wat: bool, wit: bool) -> Result<(), String> {
     }
     // cargo serialises concurrent builds in one target directory by itself
     let st = std::process::Command::new("cargo")
-        .args(["build", "--offline", "--quiet", "-p", &name])
+        .args(["build", "--offline", "--quiet", "-j", "6", "-p", &name])
         .current_dir(&ws)
         .env("CARGO_TARGET_DIR", ws.join("target"))
         .env("CARGO_NET_OFFLINE", "true")
